@@ -82,9 +82,13 @@ func C01(x *Idx) []V {
 					out = append(out, V{"C01", "dep-never-seen", f("%s launched (seq %d) but dependency %s (%s) has no event at all before it", proc, in.Launch, d.On, d.Cond)})
 					continue
 				}
-				// a stop request on the dependency makes the case ambiguous: not judged
-				if x.FirstStopReq(d.On, 0, in.Launch) >= 0 {
-					continue
+				// a dependency that was stopped before it ever launched "ends" without having run:
+				// the statement does not say what that counts as for the completion and started
+				// conditions. Readiness conditions are never excused: they need the fact.
+				if sr := x.FirstStopReq(d.On, 0, in.Launch); sr >= 0 && d.Cond != CondHealthy && d.Cond != CondLogReady {
+					if x.has(0, sr, func(e world.Event) bool { return e.Proc == d.On && e.Kind == world.EvLaunch }) < 0 {
+						continue
+					}
 				}
 				okc := false
 				switch d.Cond {
